@@ -233,7 +233,7 @@ func init() {
 			lvl = 1
 		}
 		g := genCfg{prop: "C04", classes: OLin}
-		ms := genMapFamilies(g, CMapOfInt, lvl, true)
+		ms := genMapFamilies(g, CMapOfInt, 1, true) // MapOf scenarios are cheap: the quick tier runs the full family set
 		ms = append(ms, genMapFamilies(g, CMapOfStr, lvl, lvl >= 1)...)
 		ms = append(ms, genMapFamilies(g, CMapOfStruct, lvl, false)...)
 		return toScenarios(ms)
